@@ -213,11 +213,15 @@ def concurrent(rng: random.Random, nthreads: int, ntasks: int, nested: bool = Fa
     With `pool`, the tasks also hand work to executor threads (`asyncio.to_thread`), which are reused."""
     lines = ['import threading, asyncio', '']
     owners: dict = {}
+    if not join:
+        # not joined, but the main script does not end before every thread it started has entered its (traced) function: a thread that reaches
+        # script code for the first time after the script has ended is not traced at all (see F-G8) — that case has its own, deterministic scenarios
+        lines += ['entered = threading.Semaphore(0)', '']
     if pool and ntasks:
         lines += ['def pool_work(k):', '    w = k * 2', "    print('W', k, threading.current_thread().name)", '    return w', '']
     for i in range(nthreads):
         n = rng.randint(1, 3)
-        lines += [f'def thread_body_{i}():', f'    t{i} = 0'] + ([] if join else ['    import time', '    time.sleep(0.05)']) + [f'    for k in range({n}):', f'        t{i} += k', f"    print('T{i}', t{i})", '']
+        lines += [f'def thread_body_{i}():', f'    t{i} = 0'] + ([] if join else ([] if nested and i == 0 else ['    entered.release()']) + ['    import time', '    time.sleep(0.05)']) + [f'    for k in range({n}):', f'        t{i} += k', f"    print('T{i}', t{i})", '']
         owners[f'T{i}'] = f'thread_body_{i}'
     for i in range(ntasks):
         n = rng.randint(1, 3)
@@ -235,7 +239,7 @@ def concurrent(rng: random.Random, nthreads: int, ntasks: int, nested: bool = Fa
     if ntasks:
         lines += ['async def amain():', '    await asyncio.gather(' + ', '.join(f'task_body_{i}()' for i in range(ntasks)) + ')', '']
     if nested and nthreads:
-        lines += ['def starter():', '    inner = threading.Thread(target=thread_body_0)', '    inner.start()', '    inner.join()', '']
+        lines += ['def starter():'] + ([] if join else ['    entered.release()']) + ['    inner = threading.Thread(target=thread_body_0)', '    inner.start()', '    inner.join()', '']
         lines += ['ths = [threading.Thread(target=starter)] + [threading.Thread(target=thread_body_%d) for _ in range(1)]' % (nthreads - 1 if nthreads > 1 else 0)]
         lines[-1] = 'ths = [threading.Thread(target=starter)]' + ''.join(f' + [threading.Thread(target=thread_body_{i})]' for i in range(1, nthreads))
     else:
@@ -246,5 +250,93 @@ def concurrent(rng: random.Random, nthreads: int, ntasks: int, nested: bool = Fa
     if join:
         lines += ['for t in ths:', '    t.join()', "print('main', m)"]
     else:
-        lines += ["print('main', m)"]          # the threads outlive the main script: the run ends when they do
+        lines += ['for t in ths:', '    entered.acquire()', "print('main', m)"]          # the threads outlive the main script: the run ends when they do
     return '\n'.join(lines) + '\n', owners
+
+
+def pool_reuse(rng: random.Random, ntasks: int = 2, ncalls: int = 4) -> tuple[str, dict]:
+    """An asyncio script whose tasks hand work to the default executor *one job after the other* (every job is awaited before
+    the next one is submitted, so the executor reuses its idle worker thread), in the ways a function can be made to run
+    somewhere else: `asyncio.to_thread` (runs it in a copy of the calling task's context), `loop.run_in_executor` (plain, and
+    through `contextvars.copy_context().run`), `loop.call_soon` (a callback of the loop: main thread, no task, copy of the
+    scheduling task's context), `loop.call_soon_threadsafe` from inside a job (main thread, copy of the worker's context), and
+    `copy_context().run` inside the task.  The main thread, the tasks, the callbacks and the jobs all write full lines and
+    partial lines; a task leaves a line unfinished across the await of a job, a worker thread across two jobs.  Every written
+    piece carries a unique tag.  Returns (source, {'forms': the call forms used, 'jobs': number of job functions})."""
+    chars = 'xyz é漢'
+    defs: list = []
+    counter = [0]
+    forms_used: list = []
+
+    def piece(tag: str) -> str:
+        counter[0] += 1
+        return f'{tag}.{counter[0]}' + ''.join(rng.choice(chars) for _ in range(rng.randint(0, 3)))
+
+    def writes(tag: str, ind: str, n: int) -> list:
+        out = []
+        for _ in range(n):
+            r = rng.random()
+            if r < 0.35:
+                out.append(f'{ind}print({piece(tag)!r})')
+            elif r < 0.6:
+                out.append(f"{ind}print({piece(tag)!r}, end=' ')")
+            elif r < 0.75:
+                out.append(f'{ind}sys.stdout.write({piece(tag) + chr(10)!r})')
+            elif r < 0.9:
+                out.append(f'{ind}sys.stdout.write({piece(tag) + chr(10) + piece(tag) + "~"!r})')
+            else:
+                out.append(f'{ind}print()')
+        return out
+
+    def job(kind: str) -> str:
+        """a function run outside the task: 'job' (in a pool thread), 'cb' (callback of the loop), 'inl' (inside the task)"""
+        name = f'{kind}_{len(defs)}'
+        args = {'job': '', 'cb': 'fut', 'inl': '', 'jobts': 'loop, fut'}[kind]
+        body = writes({'job': 'W', 'cb': 'C', 'inl': 'I', 'jobts': 'W'}[kind], '    ', rng.randint(1, 3))
+        if kind == 'cb':
+            body += ['    fut.set_result(None)']
+        if kind == 'jobts':
+            cbname = job('cb')
+            body.insert(rng.randint(0, len(body)), f'    loop.call_soon_threadsafe({cbname}, fut)')
+        defs.append((name, [f'def {name}({args}):'] + body + [f'    return {len(defs)}', '']))
+        return name
+
+    tasks: list = []
+    for i in range(ntasks):
+        tag = f'A{i}'
+        body = [f'async def task_body_{i}():', '    loop = asyncio.get_running_loop()'] + writes(tag, '    ', rng.randint(1, 2))
+        for c in range(ncalls):
+            # the first two calls of the first task: the worker thread is started by one form and reused by the other one
+            form = rng.choice(['to_thread', 'to_thread', 'executor', 'executor_ctx', 'call_soon', 'threadsafe', 'ctx_run'])
+            if i == 0 and c < 2:
+                form = [['to_thread', 'to_thread'], ['executor', 'to_thread'], ['to_thread', 'executor']][rng.randrange(3)][c]
+            forms_used.append(form)
+            if rng.random() < 0.6:
+                body += [f"    print({piece(tag)!r}, end=' ')"]        # the task's line is unfinished while the job runs
+            if form == 'to_thread':
+                body += [f'    r = await asyncio.to_thread({job("job")})']
+            elif form == 'executor':
+                body += [f'    r = await loop.run_in_executor(None, {job("job")})']
+            elif form == 'executor_ctx':
+                body += [f'    r = await loop.run_in_executor(None, contextvars.copy_context().run, {job("job")})']
+            elif form == 'call_soon':
+                body += ['    fut = loop.create_future()', f'    loop.call_soon({job("cb")}, fut)', '    r = await fut']
+            elif form == 'threadsafe':
+                body += ['    fut = loop.create_future()', f'    r = await asyncio.to_thread({job("jobts")}, loop, fut)', '    await fut']
+            else:
+                body += [f'    r = contextvars.copy_context().run({job("inl")})']
+            body += writes(tag, '    ', rng.randint(1, 2))
+        if rng.random() < 0.8:
+            body += [f'    print({piece(tag)!r})']
+        tasks.append(body + [''])
+    lines = ['import asyncio, contextvars, sys', '']
+    for _, d in defs:
+        lines += d
+    for t in tasks:
+        lines += t
+    lines += ['async def amain():'] + writes('AM', '    ', 1)
+    for i in range(ntasks):
+        lines += [f'    await task_body_{i}()' if rng.random() < 0.4 else f'    await asyncio.create_task(task_body_{i}())']
+    lines += writes('AM', '    ', 1) + [f'    print({piece("AM")!r})', '']
+    lines += writes('M', '', 2) + ['asyncio.run(amain())'] + writes('M', '', 1) + [f'print({piece("M")!r})']
+    return '\n'.join(lines) + '\n', {'forms': forms_used, 'jobs': len(defs)}
